@@ -286,6 +286,30 @@ func (vc *VC) declareSort(s Sort) {
 		i, e := splitArraySort(s)
 		vc.declareSort(i)
 		vc.declareSort(e)
+		return
+	}
+	// a sort name computed against another VC (e.g. while resolving modifies clauses): declare it here too
+	if strings.HasPrefix(s, "Slice_") && !vc.declSet["dt:"+s] {
+		if e := sliceElemGet(s); e != "" {
+			vc.sliceSort(e)
+		}
+		return
+	}
+	if strings.HasPrefix(s, "S_") && !vc.declSet["dt:"+s] {
+		if info, ok := structInfoGet(s); ok && info.st != nil {
+			for _, fs := range info.fsorts {
+				vc.declareSort(fs)
+			}
+			var parts []string
+			for i, acc := range info.fields {
+				parts = append(parts, fmt.Sprintf("(%s %s)", acc, info.fsorts[i]))
+			}
+			if len(parts) == 0 {
+				vc.declare("dt:"+s, fmt.Sprintf("(declare-datatypes ((%s 0)) (((mk%s))))", s, s))
+			} else {
+				vc.declare("dt:"+s, fmt.Sprintf("(declare-datatypes ((%s 0)) (((mk%s %s))))", s, s, strings.Join(parts, " ")))
+			}
+		}
 	}
 }
 
@@ -576,4 +600,18 @@ func (vc *VC) declareSqrt() {
 	}
 	vc.ufun("real.sqrt", []Sort{SReal}, SReal)
 	vc.axiom("(forall ((x Real)) (! (=> (>= x 0.0) (and (>= (real.sqrt x) 0.0) (= (* (real.sqrt x) (real.sqrt x)) x))) :pattern ((real.sqrt x))))")
+}
+
+// declareASCII introduces gs.ascii(s) ("every byte of s is below 0x80") together with its two defining axioms:
+// elimination (each byte is below 128) and introduction through a witness function (a string that is not
+// all-ASCII has an index holding a byte >= 128).
+func (vc *VC) declareASCII() {
+	if vc.declSet["f:gs.ascii"] {
+		return
+	}
+	vc.needStrings()
+	vc.ufun("gs.ascii", []Sort{SStr}, SBool)
+	vc.ufun("gs.nonascii", []Sort{SStr}, SInt)
+	vc.axiom("(forall ((s Str) (i Int)) (! (=> (and (gs.ascii s) (<= 0 i) (< i (gs.len s))) (< (gs.at s i) 128)) :pattern ((gs.ascii s) (gs.at s i))))")
+	vc.axiom("(forall ((s Str)) (! (or (gs.ascii s) (and (<= 0 (gs.nonascii s)) (< (gs.nonascii s) (gs.len s)) (>= (gs.at s (gs.nonascii s)) 128))) :pattern ((gs.ascii s))))")
 }
